@@ -90,6 +90,15 @@ Section Spec.
             | Some (kd', i) => let acc' := acc ++ s_band (smap r kd') i in ssweep_next r l (OHandles kd : op) j acc' (RList (collect keq acc'))
             | None => Some (r, finish l (RList (collect keq acc)))
             end
+        | OGetOrCreateP kd key0 :: _ =>
+            (* a panicking closure: the single map changes exactly as for a returning call *)
+            match s_find (smap r kd) key0 with
+            | Some e => Some (r, finish l (RPanicked (snd e)))
+            | None => match j with
+                      | O => Some (r, goto l 1 [])
+                      | S _ => Some (s_create r kd key0, finish l (RPanicked (s_next r)))
+                      end
+            end
         end
     end.
 
